@@ -59,11 +59,11 @@ Proof.
 Qed.
 
 (* scan under the typed-state precondition *)
-Lemma scan_steps a seed t reduce : forall xs acc st ys fin,
+Lemma scan_steps a seed t reduce term : forall xs acc st ys fin,
   acc = match st with Some c => c | None => seed end ->
   scan_res a t acc xs = Some (ys, fin) ->
-  concat (fst (lsteps item (L_scan a seed t reduce None) st (its xs))) = (if reduce then [] else its ys) /\
-  match snd (lsteps item (L_scan a seed t reduce None) st (its xs)) with Some c => c | None => seed end = fin.
+  concat (fst (lsteps item (L_scan a seed t reduce term) st (its xs))) = (if reduce then [] else its ys) /\
+  match snd (lsteps item (L_scan a seed t reduce term) st (its xs)) with Some c => c | None => seed end = fin.
 Proof.
   induction xs as [|x xs IH]; intros acc st ys fin Hacc H; cbn [scan_res its map lsteps] in *.
   - inversion H; subst. cbn. split; [destruct reduce; reflexivity | reflexivity].
@@ -72,16 +72,49 @@ Proof.
     destruct (scan_res a t acc' xs) as [[ys' fin']|] eqn:Er; [|discriminate]. inversion H; subst ys fin. clear H.
     cbn [lnext L_scan on_it]. rewrite <- Hacc, Ea, (fits_coerce t acc' Ef).
     destruct (IH acc' (Some acc') ys' fin' eq_refl Er) as [E1 E2]. unfold its in *.
-    destruct (lsteps item (L_scan a seed t reduce None) (Some acc') (map It xs)) as [os s2]. cbn [fst snd concat] in *.
+    destruct (lsteps item (L_scan a seed t reduce term) (Some acc') (map It xs)) as [os s2]. cbn [fst snd concat] in *.
     split; [|exact E2]. rewrite E1. destruct reduce; reflexivity.
 Qed.
 Lemma scan_items a seed t reduce xs ys fin : scan_res a t seed xs = Some (ys, fin) ->
   items_of item (L_scan a seed t reduce None) (its xs) = its (if reduce then [fin] else ys).
 Proof.
   intro H. unfold items_of, ltimed. cbn [l0 L_scan].
-  destruct (scan_steps a seed t reduce xs seed None ys fin eq_refl H) as [E1 E2].
+  destruct (scan_steps a seed t reduce None xs seed None ys fin eq_refl H) as [E1 E2].
   destruct (lsteps item (L_scan a seed t reduce None) None (its xs)) as [os s2]. cbn [fst snd] in *.
   rewrite E1. cbn [ldone L_scan app]. rewrite E2. destruct reduce; cbn; [reflexivity | now rewrite app_nil_r].
+Qed.
+(* with a terminator: its result is emitted once, at completion, after the running values *)
+Lemma scan_term_items a seed t reduce f xs ys fin v : scan_res a t seed xs = Some (ys, fin) ->
+  apply1 f fin = Ok v -> fits t v = true ->
+  items_of item (L_scan a seed t reduce (Some f)) (its xs) = its (if reduce then [v] else ys ++ [v]).
+Proof.
+  intros H Hf Hv. unfold items_of, ltimed. cbn [l0 L_scan].
+  destruct (scan_steps a seed t reduce (Some f) xs seed None ys fin eq_refl H) as [E1 E2].
+  destruct (lsteps item (L_scan a seed t reduce (Some f)) None (its xs)) as [os s2]. cbn [fst snd] in *.
+  rewrite E1. cbn [ldone L_scan]. rewrite E2, Hf, (fits_coerce t v Hv).
+  destruct reduce; cbn; [reflexivity|]. unfold its. rewrite ?map_app, ?app_nil_r. reflexivity.
+Qed.
+
+(* assert_1 on a sequence whose consecutive pairs all pass *)
+Lemma assert1_steps a : forall xs st,
+  pairs_ok (apply2 a) (match st with Some p => p :: xs | None => xs end) = true ->
+  concat (fst (lsteps item (L_assert1 a) st (its xs))) = its xs.
+Proof.
+  induction xs as [|x xs IH]; intros st H; [reflexivity|].
+  cbn [its map lsteps lnext L_assert1 on_it].
+  specialize (IH (Some x)). unfold its in IH.
+  destruct (lsteps item (L_assert1 a) (Some x) (map It xs)) as [os s2]. cbn [fst concat] in *.
+  destruct st as [p|].
+  - cbn [pairs_ok] in H. destruct (apply2 a p x) as [b|e]; [|discriminate]. apply andb_prop in H. destruct H as [H1 H2].
+    rewrite H1. cbn [app]. f_equal. apply IH. exact H2.
+  - cbn [app]. f_equal. apply IH. exact H.
+Qed.
+Lemma assert1_items a xs : pairs_ok (apply2 a) xs = true -> items_of item (L_assert1 a) (its xs) = its xs.
+Proof.
+  intro H. unfold items_of, ltimed. cbn [l0 L_assert1].
+  pose proof (assert1_steps a xs None H) as E.
+  destruct (lsteps item (L_assert1 a) None (its xs)) as [os s2]. cbn [fst snd] in *.
+  rewrite E. cbn [ldone L_assert1]. now rewrite app_nil_r.
 Qed.
 
 (* one operator *)
@@ -91,9 +124,14 @@ Proof.
   - apply map_items; auto.
   - apply filter_items; auto.
   - apply flat_items; auto.
-  - (* scan *) destruct term; [discriminate|]. destruct (scan_res a t seed xs) as [[ys' fin]|] eqn:E; [|discriminate].
-    cbn [obind] in H. inversion H; subst. change (bl item (den (OScan a seed t reduce None))) with (L_scan a seed t reduce None).
-    apply (scan_items a seed t reduce xs ys' fin E).
+  - (* scan *) destruct term as [f|].
+    + destruct (scan_res a t seed xs) as [[ys' fin]|] eqn:E; [|discriminate]. cbn [obind] in H.
+      destruct (apply1 f fin) as [v|e] eqn:Ef; [|discriminate]. destruct (fits t v) eqn:Ev; [|discriminate].
+      inversion H; subst. change (bl item (den (OScan a seed t reduce (Some f)))) with (L_scan a seed t reduce (Some f)).
+      apply (scan_term_items a seed t reduce f xs ys' fin v E Ef Ev).
+    + destruct (scan_res a t seed xs) as [[ys' fin]|] eqn:E; [|discriminate].
+      cbn [obind] in H. inversion H; subst. change (bl item (den (OScan a seed t reduce None))) with (L_scan a seed t reduce None).
+      apply (scan_items a seed t reduce xs ys' fin E).
   - (* first *) destruct xs as [|x xs]; [discriminate|]. inversion H; subst. change (bl item (den OFirst)) with L_first.
     now rewrite first_items.
   - (* last *) destruct xs as [|x xs]; [discriminate|]. inversion H; subst. change (bl item (den OLast)) with L_last.
@@ -101,6 +139,8 @@ Proof.
   - (* take *) inversion H; subst. change (bl item (den (OTake n))) with (L_take n). apply take_items.
   - (* assert *) destruct (all_true (apply1 p) xs) eqn:E; [|discriminate]. inversion H; subst.
     change (bl item (den (OAssert p))) with (L_assert p). apply assert_items; auto.
+  - (* assert_1 *) destruct (pairs_ok (apply2 a) xs) eqn:E; [|discriminate]. inversion H; subst.
+    change (bl item (den (OAssert1 a))) with (L_assert1 a). apply assert1_items; auto.
 Qed.
 
 (* pipelines: composition of list functions *)
